@@ -154,12 +154,20 @@ func NewASReq(realm string, c *config.Config, cname, sname types.PrincipalName) 
 }
 
 // NewTGSReq generates a new KRB_TGS_REQ struct.
+// The authenticator names the realm of the ticket's issuer as the client's realm. That is only right for a
+// ticket issued by the client's own realm: use NewTGSReqForClient when presenting a cross-realm TGT.
 func NewTGSReq(cname types.PrincipalName, kdcRealm string, c *config.Config, tgt Ticket, sessionKey types.EncryptionKey, sname types.PrincipalName, renewal bool) (TGSReq, error) {
+	return NewTGSReqForClient(cname, tgt.Realm, kdcRealm, c, tgt, sessionKey, sname, renewal)
+}
+
+// NewTGSReqForClient generates a new KRB_TGS_REQ struct whose authenticator names crealm as the client's realm,
+// as RFC 4120 requires whichever realm issued the ticket that is presented.
+func NewTGSReqForClient(cname types.PrincipalName, crealm, kdcRealm string, c *config.Config, tgt Ticket, sessionKey types.EncryptionKey, sname types.PrincipalName, renewal bool) (TGSReq, error) {
 	a, err := tgsReq(cname, sname, kdcRealm, renewal, c)
 	if err != nil {
 		return a, err
 	}
-	err = a.setPAData(tgt, sessionKey)
+	err = a.setPADataForClient(crealm, tgt, sessionKey)
 	return a, err
 }
 
@@ -227,6 +235,10 @@ func tgsReq(cname, sname types.PrincipalName, kdcRealm string, renewal bool, c *
 }
 
 func (k *TGSReq) setPAData(tgt Ticket, sessionKey types.EncryptionKey) error {
+	return k.setPADataForClient(tgt.Realm, tgt, sessionKey)
+}
+
+func (k *TGSReq) setPADataForClient(crealm string, tgt Ticket, sessionKey types.EncryptionKey) error {
 	// Marshal the request and calculate checksum
 	b, err := k.ReqBody.Marshal()
 	if err != nil {
@@ -243,7 +255,7 @@ func (k *TGSReq) setPAData(tgt Ticket, sessionKey types.EncryptionKey) error {
 
 	// Form PAData for TGS_REQ
 	// Create authenticator
-	auth, err := types.NewAuthenticator(tgt.Realm, k.ReqBody.CName)
+	auth, err := types.NewAuthenticator(crealm, k.ReqBody.CName)
 	if err != nil {
 		return krberror.Errorf(err, krberror.KRBMsgError, "error generating new authenticator")
 	}
